@@ -77,20 +77,27 @@ func b01(b bool) int {
 // preFeed: bytes the child wrote on the primary screen before the Vaxis application started
 var preFeed string
 
+// onPrimary: the next session leaves the alternate screen after start-up
+var onPrimary bool
+
+func feedEmu(emu *term.Model, str string) {
+	parser := ansi.NewParser(strings.NewReader(str))
+	for seq := range parser.Next() {
+		if _, ok := seq.(ansi.EOF); ok {
+			break
+		}
+		emu.VerifFeed(seq)
+		parser.Finish(seq)
+	}
+	emu.VerifTakeReplies()
+}
+
 func newSession(r *hx.Run, rng *gen.Rng, id string, w, h int, rgb, su, ew, sync, uc bool) (*session, error) {
 	emu := term.VerifNew(w, h)
 	emu.OSC8 = true
 	emu.Focus()
 	if preFeed != "" {
-		parser := ansi.NewParser(strings.NewReader(preFeed))
-		for seq := range parser.Next() {
-			if _, ok := seq.(ansi.EOF); ok {
-				break
-			}
-			emu.VerifFeed(seq)
-			parser.Finish(seq)
-		}
-		emu.VerifTakeReplies()
+		feedEmu(emu, preFeed)
 	}
 	// every 16th session: the emulator is already shown by a host Vaxis that can report its background
 	// (OSC 11), so the child's OSC 11 query is answered (reply writers with a host attached)
@@ -200,6 +207,13 @@ func newSession(r *hx.Run, rng *gen.Rng, id string, w, h int, rgb, su, ew, sync,
 	sessions++
 	r.Emit("emucaps "+ct, string(det))
 	s.ew = c["explicitWidth"]
+	if su {
+		// styled underlines: implemented by the emulator (4:n, 58:…, 59) but never advertised (no XTGETTCAP /
+		// DA3 reply), so never detected; set as a terminal's Smulx reply would (Props/C12Any, CapsOkU)
+		vx.VerifC12SetStyledUnderlines(true)
+		c["styledUnderlines"] = true
+		r.Count("session-styled-underlines")
+	}
 	r.Emit(fmt.Sprintf("caps %d %d %d %d", b01(c["rgb"]), b01(c["styledUnderlines"]), b01(c["explicitWidth"]), b01(c["synchronizedUpdate"])), "-")
 	r.Emit(fmt.Sprintf("size %d %d", w, h), "-")
 	var d []string
@@ -219,6 +233,12 @@ func newSession(r *hx.Run, rng *gen.Rng, id string, w, h int, rgb, su, ew, sync,
 				r.Count("merges-declared-alphabet")
 			}
 		}
+	}
+	if onPrimary {
+		// the application's screen is the PRIMARY one (as if it had left the alternate screen: Vaxis itself
+		// always enters it): every resize then reflows what the emulator shows (Props/C12Any, LinkedP)
+		feedEmu(emu, "\x1b[?1049l")
+		r.Count("session-on-primary-screen")
 	}
 	// the emulator MODEL (composition stream) continues from the real emulator's state after start-up
 	r.Emit("emuadopt", emuh.Snapshot(emu.VerifSnapshot()))
@@ -384,7 +404,7 @@ func randColor(rng *gen.Rng) vaxis.Color {
 	}
 }
 
-var links = [][2]string{{"", ""}, {"", ""}, {"http://a", ""}, {"http://a", "id=1"}, {"http://b", "id=2"}, {"", "id=9"}, {"http://c/v;s=4?x=1", "id=3"}}
+var links = [][2]string{{"", ""}, {"", ""}, {"http://a", ""}, {"http://a", "id=1"}, {"http://b", "id=2"}, {"", "id=9"}, {"http://c/v;s=4?x=1", "id=3"}, {"http://e", "id=5;x=1"}, {"http://e", ";"}, {"http://a", "id=1;"}}
 
 func randStyle(rng *gen.Rng, r *hx.Run) vaxis.Style {
 	if rng.Chance(1, 4) {
@@ -509,8 +529,10 @@ func history(r *hx.Run, rng *gen.Rng, id string, maxW, maxH, frames int) error {
 		preFeed = sb.String()
 		r.Count("history-with-primary-content")
 	}
+	onPrimary = rng.Chance(1, 8)
 	s, err := newSession(r, rng, id, w, h, rng.Bool(), rng.Bool(), rng.Bool(), rng.Bool(), rng.Bool())
 	preFeed = ""
+	onPrimary = false
 	if err != nil {
 		return err
 	}
@@ -685,6 +707,72 @@ func run(r *hx.Run) error {
 		s.render(false)
 		s.close()
 		r.Count("scenario-" + sc.id)
+	}
+	// styled underlines (never detected inside the emulator, implemented by it): every underline style with
+	// every class of underline colour, with and without direct colour; a diff frame that changes only the
+	// underline colour / only the style; back to no underline
+	for i, rgb := range []bool{false, true} {
+		s, err := newSession(r, rng, fmt.Sprintf("su-%d", i), 6, 2, rgb, true, false, false, true)
+		if err != nil {
+			return err
+		}
+		ulc := []vaxis.Color{0, vaxis.IndexColor(3), vaxis.IndexColor(12), vaxis.IndexColor(200), vaxis.RGBColor(10, 200, 30), vaxis.IndexColor(0)}
+		win := s.vx.Window()
+		for k := 0; k < 6; k++ {
+			c := ch("u")
+			c.Style = vaxis.Style{UnderlineStyle: vaxis.UnderlineStyle(k), UnderlineColor: ulc[k]}
+			win.SetCell(k, 0, c)
+			c.Style = vaxis.Style{UnderlineStyle: vaxis.UnderlineStyle(5 - k), UnderlineColor: ulc[(k+2)%6], Attribute: vaxis.AttrBold}
+			win.SetCell(k, 1, c)
+		}
+		s.render(false)
+		for k := 0; k < 6; k++ {
+			c := ch("u")
+			c.Style = vaxis.Style{UnderlineStyle: vaxis.UnderlineStyle(k), UnderlineColor: ulc[(k+1)%6]}
+			win.SetCell(k, 0, c)
+			c.Style = vaxis.Style{UnderlineStyle: vaxis.UnderlineStyle((6 - k) % 6), UnderlineColor: ulc[(k+2)%6], Attribute: vaxis.AttrBold}
+			win.SetCell(k, 1, c)
+		}
+		s.render(false)
+		win.Clear()
+		win.SetCell(5, 1, ch("z"))
+		s.render(false)
+		s.close()
+		r.Count("scenario-styled-underlines")
+	}
+	// the application on the PRIMARY screen across resizes: what a shell left there is reflowed by every
+	// resize and overwritten by the refresh frame
+	for i, sc := range []struct {
+		pre          string
+		w, h, nw, nh int
+	}{
+		{"\x1b[44mabcd\r\n\x1b[mefgh", 4, 2, 5, 2},
+		{"abcdefghijkl", 4, 3, 3, 2},
+		{"\x1b[1;4;31ma\r\n世b\r\nc\r\nd\x1b[m", 3, 4, 7, 2},
+	} {
+		preFeed = sc.pre
+		onPrimary = true
+		s, err := newSession(r, rng, fmt.Sprintf("primary-%d", i), sc.w, sc.h, i%2 == 0, i == 2, false, false, true)
+		preFeed = ""
+		onPrimary = false
+		if err != nil {
+			return err
+		}
+		win := s.vx.Window()
+		win.SetCell(0, sc.h-1, ch("y"))
+		s.render(true)
+		s.resize(sc.nw, sc.nh)
+		win = s.vx.Window()
+		win.SetCell(0, 0, ch("x"))
+		s.render(false)
+		win.SetCell(sc.nw-1, sc.nh-1, ch("世"))
+		s.render(false)
+		s.resize(sc.w, sc.h)
+		win = s.vx.Window()
+		win.SetCell(0, 0, ch("w"))
+		s.render(false)
+		s.close()
+		r.Count("scenario-primary-screen")
 	}
 	// Random histories
 	hist, maxW, maxH, frames := 300, 8, 4, 6
